@@ -17,12 +17,19 @@ import (
 // plainOutcome runs the program once without any cancellation (default schedule) and returns what
 // the caller gets: the "result the execution completes with" when nobody cancels it.
 func plainOutcome(stack []Spec, script []Out) (v int, err error, invs int) {
+	v, err, invs, _ = plainOutcomeT(stack, script)
+	return
+}
+
+// plainOutcomeT also returns how long the uncancelled execution takes.
+func plainOutcomeT(stack []Spec, script []Out) (v int, err error, invs int, took int64) {
 	r := vrt.Execute(vrt.Options{}, func() {
 		env := NewEnv(stack)
 		env.Script = script
 		env.Quiet = true
+		t0 := vrt.Elapsed()
 		env.runSync(false)
-		v, err, invs = env.ResV, env.ResE, len(env.Invs)
+		v, err, invs, took = env.ResV, env.ResE, len(env.Invs), vrt.Elapsed()-t0
 	})
 	if r.Panic != "" || r.Deadlock != "" {
 		panic("plainOutcome: " + r.Panic + r.Deadlock)
@@ -43,6 +50,7 @@ type c08Case struct {
 	pv     int
 	pe     error
 	pinvs  int
+	ptook  int64 // how long the uncancelled execution takes
 }
 
 func (c *c08Case) final(env *Env) string {
@@ -84,6 +92,9 @@ func (c *c08Case) final(env *Env) string {
 	} else if x.DoneAt >= tc && !(x.DoneBeforeCancel) {
 		if !isCause && !isPlain {
 			return fmt.Sprintf("caller got (%d,%v) after cancellation at t=%d; want %v or the completed result (%d,%v)", x.ResV, x.ResE, tc, cause, c.pv, c.pe)
+		}
+		if isPlain && !isCause && x.DoneAt-x.StartedAt < c.ptook {
+			return fmt.Sprintf("caller got (%d,%v) %d after the start; the execution had not completed with it (uncancelled it takes %d), and it is not the cause %v", x.ResV, x.ResE, x.DoneAt-x.StartedAt, c.ptook, cause)
 		}
 		if isPlain && !isCause && len(x.Invs) != c.pinvs {
 			return fmt.Sprintf("caller got the uncancelled outcome (%d,%v) but only %d of its %d invocations ran", x.ResV, x.ResE, len(x.Invs), c.pinvs)
@@ -166,7 +177,7 @@ func c08Scenarios(tier string) []*Scenario {
 				return c
 			}
 		}
-		c.pv, c.pe, c.pinvs = plainOutcome(c.stack, c.script)
+		c.pv, c.pe, c.pinvs, c.ptook = plainOutcomeT(c.stack, c.script)
 		return c
 	}
 	coop := func(d time.Duration, err error, v int) Out { return Out{V: v, Err: err, Dur: d, Coop: true} }
@@ -204,6 +215,13 @@ func c08Scenarios(tier string) []*Scenario {
 		}
 		add(prepare(&c08Case{name: "fallback(hedge)", stack: []Spec{fb, hedge}, script: hs, source: src, at: 10}))
 		add(prepare(&c08Case{name: "retry(hedge)", stack: []Spec{retry, hedge}, script: hs, source: src, at: 50}))
+		// a hedge round won by a failing hedge while the first attempt is still running (it is cancelled as the
+		// loser); the cancellation arrives in the retry delay that follows, and in the next round
+		hedgeAny := Spec{Kind: KHedge, MaxHedges: 1, HDelay: R}
+		rounds := []Out{coop(200, E1, 0), coop(10, E1, 0), coop(200, E1, 0), coop(10, E1, 0), coop(200, E1, 0), coop(10, nil, 1)}
+		for _, at := range []time.Duration{70, 100} {
+			add(prepare(&c08Case{name: "retry(hedge)-after-round", stack: []Spec{retry, hedgeAny}, script: rounds, source: src, at: at}))
+		}
 	}
 	// contexts cancelled with a custom cause still report context.Canceled / DeadlineExceeded
 	for _, src := range []string{"ctxcause", "deadlinecause"} {
